@@ -226,12 +226,13 @@ func runC07(c *Ctx) {
 					}
 				}
 				for ii, in := range inputs {
-					if ii%8 == 0 {
-						runtime.GC()
-						runtime.GC()
-					}
+					_ = ii
 					for mode := 0; mode < 3; mode++ {
 						n++
+						// an empty pool before every probe: a header left by the previous probe's follow-up document
+						// is already large and never grows, which hides a fault in the growing path
+						runtime.GC()
+						runtime.GC()
 						dst := p.mk()
 						var err error
 						var pan string
@@ -244,6 +245,14 @@ func runC07(c *Ctx) {
 							err, pan = safeDo(func() error { return json.NewDecoder(&chunkReader{data: in, size: 1}).Decode(dst) })
 						}
 						pe := json.VerifPoolErrors()
+						if len(pe) > 0 {
+							// a later decode would store past the array: report now instead of running it
+							c.Oracle(fmt.Sprintf("pool-invariant/%s/mode%d", p.name, mode), fmt.Sprintf("%q", in),
+								fmt.Sprintf("pool=%v err=%s panic=%s", pe, errT(err), pan), "pooled headers consistent", false, "")
+							runtime.GC()
+							runtime.GC()
+							continue
+						}
 						g2, s2 := p.mk(), p.mk()
 						e2, pan2 := safeDo(func() error { return json.Unmarshal([]byte(follow), g2) })
 						stdjson.Unmarshal([]byte(follow), s2)
